@@ -739,9 +739,203 @@ fn stress_case(cx: &mut Cx) {
     let _ = std::fs::remove_dir_all(&dir);
 }
 
-/// `vcheck C18 --aux writer:<path>:<seed>:<millis>`
+
+/// Is strace usable here (ptrace permitted, fault injection supported)? Probed once per process.
+fn strace_available() -> bool {
+    static OK: std::sync::OnceLock<bool> = std::sync::OnceLock::new();
+    *OK.get_or_init(|| {
+        std::process::Command::new("strace")
+            .args(["-o", "/dev/null", "-e", "trace=rmdir", "-e", "inject=rmdir:error=EIO:when=65535", "true"])
+            .stdout(std::process::Stdio::null())
+            .stderr(std::process::Stdio::null())
+            .status()
+            .map(|s| s.success())
+            .unwrap_or(false)
+    })
+}
+
+const FAULT_SYSCALLS: &str = "openat,mkdir,fchmod,write,fsync,fdatasync,rename,renameat,renameat2,link,linkat,unlink,unlinkat,ftruncate,rmdir,read,close";
+
+/// **Syscall-fault lane** (strace as the fault injector, the real flush in a child process): one flush is first traced
+/// unfaulted to learn which system calls the write side makes, then re-run once per (system call, fault) placement with
+/// that call failing (ENOSPC / EIO / EACCES / EINTR) or the process killed on entering it. "Replaced atomically": whatever
+/// the fault, the cache file still loads afterwards and holds every entry it held before; a flush that reported success
+/// holds the new entries as well. Faults are placed on the write side only (a failing *read* of the old file makes the
+/// code overwrite it by design - not judged).
+fn syscall_fault_case(cx: &mut Cx) {
+    if !strace_available() {
+        cx.count("syscall-fault:lane-unavailable(strace)");
+        return;
+    }
+    let dir = scratch_dir("c18f");
+    let path = dir.join("cache.json");
+    let exe = std::env::current_exe().expect("exe");
+    let (seed0, index0) = (cx.seed, cx.index);
+    let mut rng = StdRng::seed_from_u64(h64(&(seed0, index0, "syscall-fault")));
+    let start_empty = rng.gen_bool(0.25);
+    let with_cleanup = rng.gen_bool(0.5);
+    let mut serial = 0u64;
+    // runs the child; returns (strace log, child stderr)
+    let run = |inject: Option<String>, serial: &mut u64| -> (String, String) {
+        *serial += 1;
+        let log = dir.join(format!("trace-{serial}.txt"));
+        let mut c = std::process::Command::new("strace");
+        c.arg("-o").arg(&log).args(["-e", &format!("trace={FAULT_SYSCALLS}")]);
+        if let Some(i) = &inject {
+            c.args(["-e", &format!("inject={i}")]);
+        }
+        c.arg(&exe).args(["C18", "--aux", &format!("flushonce:{}:{}:{}", path.display(), seed0.wrapping_add(index0 * 1000 + *serial), with_cleanup as u8)]);
+        let out = c.stdout(std::process::Stdio::null()).stderr(std::process::Stdio::piped()).output();
+        let err = out.map(|o| String::from_utf8_lossy(&o.stderr).to_string()).unwrap_or_default();
+        let t = std::fs::read_to_string(&log).unwrap_or_default();
+        let _ = std::fs::remove_file(&log);
+        (t, err)
+    };
+    if !start_empty {
+        for _ in 0..2 {
+            let (_, err) = run(None, &mut serial);
+            if !err.contains("flush=ok") {
+                cx.count("syscall-fault:setup-flush-failed");
+                let _ = std::fs::remove_dir_all(&dir);
+                return;
+            }
+        }
+    }
+    // the unfaulted trace: write-side calls between the marker (rmdir of a path that does not exist) and the report on stderr
+    let (trace, err0) = run(None, &mut serial);
+    if !err0.contains("flush=ok") {
+        cx.violation("flush-failed-without-any-fault", format!("an undisturbed flush in a fresh process failed: {}", err0.chars().take(200).collect::<String>()), json!({}));
+        let _ = std::fs::remove_dir_all(&dir);
+        return;
+    }
+    let mut ordinal: BTreeMap<String, u64> = BTreeMap::new();
+    let mut placements: Vec<(String, u64, String)> = vec![];
+    let mut in_phase = false;
+    for line in trace.lines() {
+        let Some(name) = line.split('(').next().map(|s| s.trim().to_string()) else { continue };
+        if name.is_empty() || name.contains(' ') || name.starts_with('+') || name.starts_with('-') {
+            continue;
+        }
+        *ordinal.entry(name.clone()).or_default() += 1;
+        if name == "rmdir" && line.contains("verif-c18-marker") {
+            in_phase = true;
+            continue;
+        }
+        if name == "write" && line.starts_with("write(2,") {
+            in_phase = false;
+        }
+        if !in_phase || name == "read" || name == "close" {
+            continue;
+        }
+        // the read side: opening the cache file itself read-only
+        if name == "openat" && line.contains("cache.json\"") && line.contains("O_RDONLY") && !line.contains("O_DIRECTORY") {
+            continue;
+        }
+        placements.push((name.clone(), ordinal[&name], line.chars().take(90).collect()));
+    }
+    if placements.len() < 2 {
+        cx.count("syscall-fault:too-few-write-side-calls-seen");
+        let _ = std::fs::remove_dir_all(&dir);
+        return;
+    }
+    cx.count_n("syscall-fault:write-side-calls-in-one-flush", placements.len() as u64);
+    let mut judged = 0u64;
+    let mut kinds_seen: BTreeSet<String> = BTreeSet::new();
+    for (name, n, line) in &placements {
+        let mut faults: Vec<String> = vec!["signal=KILL".into()];
+        for e in ["ENOSPC", "EIO", "EACCES"] {
+            if rng.gen_bool(0.5) {
+                faults.push(format!("error={e}"));
+            }
+        }
+        if name == "write" {
+            faults.push("error=EINTR".into());
+        }
+        for f in faults {
+            let before = read_file_entries(&path);
+            let existed = path.exists();
+            let (t, err) = run(Some(format!("{name}:{f}:when={n}")), &mut serial);
+            let hit = t.contains("(INJECTED)") || t.contains("killed by SIGKILL");
+            if !hit {
+                cx.count("syscall-fault:placement-not-reached");
+                continue;
+            }
+            cx.eval();
+            judged += 1;
+            cx.count(&format!("syscall-fault:{}:{}", name, f.replace("signal=", "").replace("error=", "")));
+            kinds_seen.insert(format!("{name}:{f}"));
+            let reported_ok = err.contains("flush=ok");
+            if reported_ok {
+                cx.count("syscall-fault:flush-reported-ok-despite-fault");
+            } else if err.contains("flush=err") {
+                cx.count("syscall-fault:flush-reported-error");
+            }
+            let what = format!("{f} at {name} #{n} ({line})");
+            let cfg = BootstrapCacheConfig::empty().with_cache_path(&path).with_max_peers(5000).with_addrs_per_peer(50);
+            if existed || path.exists() {
+                if existed && !path.exists() {
+                    cx.violation(&format!("fault-during-flush-removed-cache-file:{}", f.split('=').next().unwrap_or("")), format!("the cache file existed before the flush and is gone after {what}"), json!({"fault": what}));
+                    break;
+                }
+                let after = read_file_entries(&path);
+                let loaded = BootstrapCacheStore::load_cache_data(&cfg);
+                match (&after, &loaded) {
+                    (Ok(a), Ok(_)) => {
+                        if let Ok(b) = &before {
+                            let lost: Vec<_> = b.keys().filter(|k| !a.contains_key(*k)).collect();
+                            if !lost.is_empty() && !with_cleanup {
+                                cx.violation(&format!("fault-during-flush-lost-entries:{}", f.split('=').next().unwrap_or("")), format!("{} of {} entries of the file are gone after {what}", lost.len(), b.len()), json!({"fault": what, "lost": format!("{:?}", lost.iter().take(3).collect::<Vec<_>>())}));
+                            } else if a.len() < b.len() / 2 && b.len() >= 4 {
+                                // with clean-up nothing is old enough to be cleaned (all entries are seconds old), limits are far away
+                                cx.violation(&format!("fault-during-flush-lost-entries:{}", f.split('=').next().unwrap_or("")), format!("{} entries before, {} after {what}", b.len(), a.len()), json!({"fault": what}));
+                            }
+                        }
+                        if reported_ok {
+                            for l in err.lines() {
+                                if let Some(added) = l.strip_prefix("added=") {
+                                    if !a.keys().any(|(_, ad)| ad == added.trim()) {
+                                        cx.violation("flush-reported-ok-but-entry-not-in-file", format!("the flush returned Ok under {what} but {added} is not in the file"), json!({"fault": what}));
+                                    }
+                                }
+                            }
+                        }
+                    }
+                    _ => {
+                        let raw = std::fs::read(&path).unwrap_or_default();
+                        cx.violation(
+                            &format!("fault-during-flush-left-unloadable-file:{}", f.split('=').next().unwrap_or("")),
+                            format!("after {what} the cache file ({} bytes) does not load: json {:?}, load_cache_data {:?}", raw.len(), after.as_ref().err(), loaded.as_ref().err().map(|e| format!("{e:?}"))),
+                            json!({"fault": what, "existed_before": existed, "content_head": String::from_utf8_lossy(&raw).chars().take(120).collect::<String>()}),
+                        );
+                        break;
+                    }
+                }
+            } else {
+                cx.count("syscall-fault:no-file-before-none-after");
+            }
+        }
+    }
+    cx.count_n("syscall-fault:faulted-flushes-judged", judged);
+    // and an undisturbed flush still works afterwards (left-over temporary files must not stand in the way)
+    let (_, err) = run(None, &mut serial);
+    if !err.contains("flush=ok") {
+        cx.violation("flush-fails-after-earlier-faults", format!("an undisturbed flush after the faulted ones failed: {}", err.chars().take(200).collect::<String>()), json!({}));
+    }
+    if judged >= 4 && kinds_seen.len() >= 3 {
+        cx.nontrivial(&("syscall-fault", cx.index, judged));
+    }
+    if cx.report.samples.len() < 4 {
+        cx.sample(json!({"kind": "syscall-fault-lane", "start_empty": start_empty, "with_cleanup": with_cleanup, "write_side_calls": placements.iter().map(|p| format!("{}#{}", p.0, p.1)).collect::<Vec<_>>(), "faulted_flushes_judged": judged}));
+    }
+    let _ = std::fs::remove_dir_all(&dir);
+}
+
+/// `vcheck C18 --aux writer:<path>:<seed>:<millis>` | `flushonce:<path>:<seed>:<cleanup>`
 pub fn aux_main(spec: &str) -> i32 {
     let parts: Vec<&str> = spec.splitn(4, ':').collect();
+    if parts.len() == 4 && parts[0] == "flushonce" {
+        return flush_once(Path::new(parts[1]), parts[2].parse().unwrap_or(0), parts[3] == "1");
+    }
     if parts.len() != 4 || parts[0] != "writer" {
         return 2;
     }
@@ -753,6 +947,39 @@ pub fn aux_main(spec: &str) -> i32 {
         eprintln!("writer-error");
     }
     eprintln!("writes={writes}");
+    0
+}
+
+/// child of the syscall-fault lane: one store, a few well-formed additions, the marker, one flush, the report on stderr
+fn flush_once(path: &Path, seed: u64, with_cleanup: bool) -> i32 {
+    let mut rng = StdRng::seed_from_u64(seed);
+    let cfg = BootstrapCacheConfig::empty().with_cache_path(path).with_max_peers(5000).with_addrs_per_peer(50);
+    let Ok(mut store) = BootstrapCacheStore::new(cfg) else {
+        eprintln!("flush=err(new)");
+        return 0;
+    };
+    let mut added = vec![];
+    for _ in 0..rng.gen_range(1..5) {
+        let p = peer(&mut rng);
+        let a = Multiaddr::empty()
+            .with(Protocol::Ip4(std::net::Ipv4Addr::new(10, rng.gen(), rng.gen(), rng.gen_range(1..255))))
+            .with(Protocol::Udp(rng.gen_range(1024..65000)))
+            .with(Protocol::QuicV1)
+            .with(Protocol::P2p(p));
+        store.add_addr(a.clone());
+        added.push(a.to_string());
+    }
+    let _ = std::fs::remove_dir("/verif-c18-marker-that-does-not-exist");
+    let r = store.sync_and_flush_to_disk(with_cleanup);
+    let mut out = String::new();
+    match r {
+        Ok(()) => out.push_str("flush=ok\n"),
+        Err(e) => out.push_str(&format!("flush=err({e:?})\n")),
+    }
+    for a in added {
+        out.push_str(&format!("added={a}\n"));
+    }
+    eprint!("{out}");
     0
 }
 
@@ -809,10 +1036,17 @@ impl Check for C18 {
         tier.pick(Duration::from_secs(120), Duration::from_secs(1200))
     }
     fn required_counters(&self, _tier: Tier) -> Vec<&'static str> {
-        vec!["stress-loads-ok", "stress-writes", "cachedata-cleanups-with-expired-entries", "corrupt:hostile-numbers", "shape:relayed"]
+        let mut v = vec!["stress-loads-ok", "stress-writes", "cachedata-cleanups-with-expired-entries", "corrupt:hostile-numbers", "shape:relayed"];
+        if strace_available() {
+            // the syscall-fault lane must have judged something wherever strace can run at all
+            v.push("syscall-fault:faulted-flushes-judged");
+        }
+        v
     }
     fn run_case(&self, cx: &mut Cx) {
-        if cx.index % 25 == 24 {
+        if cx.index % 100 == 33 {
+            syscall_fault_case(cx);
+        } else if cx.index % 25 == 24 {
             stress_case(cx);
         } else if cx.index % 50 == 7 {
             long_running_store_case(cx);
